@@ -70,6 +70,9 @@ VMDK_LINES = [
     ('RW 16 FLAT "/etc/passwd" 0', 'unsafe'), ('RDONLY 16 FLAT "../../x.img" 0', 'unsafe'),
     ('RX 16 SPARSE "extent4.vmdk"', 'unsafe'), ('hello world', 'unsafe'),
     ('a b=c', 'unsafe'), ('RW 16 FLAT "C:\\\\x.img" 0', 'na'),
+    # a path hidden behind an ASCII control character that some line splitters honour
+    ('RW 16 FLAT "x\x0c#/../../etc/shadow" 0', 'unsafe'), ('RW 16 FLAT "x\rddb/etc/shadow" 0', 'unsafe'),
+    ('RW 16 FLAT "x\x1cy=/etc/shadow" 0', 'unsafe'),
 ]
 FOOTER_OVERS = [  # (perturbation, contradicts?)
     ({}, False),
@@ -313,6 +316,10 @@ def library_path(path):
     return S.safety_outcome(insp), str(insp)
 
 
+def truncated_flag(im):
+    return bool(im.facts.get('truncated'))
+
+
 def _batch(job):
     lo, hi, seed, tmpdir = job
     from vlib.mc import stream as S
@@ -358,6 +365,17 @@ def _batch(job):
                 problem('clean-rejected', {'path': list(pth)[-5:], 'outcome': outcome,
                                            'via': 'inspector'},
                         {'path': list(pth), 'via': 'inspector'})
+        # (a') the same bytes handed over as memoryview slices of one re-used buffer
+        if (n % 4 == 0 or im.unsafe) and fmt != 'raw':
+            tv, _tb = S.typed_run(fmt, data, [c for c in cuts if 0 < c < len(data)][:6], 'memoryview')
+            out['comparisons'] += 1
+            outcome = tv[3] if len(tv) == 4 else tv
+            if im.unsafe and outcome == 'ok':
+                problem('unsafe-accepted', {'via': 'inspector, memoryview chunks of a re-used buffer'},
+                        {'via': 'typed'})
+            if im.clean and outcome != 'ok' and not truncated_flag(im):
+                problem('clean-rejected', {'via': 'inspector, memoryview chunks', 'outcome': outcome},
+                        {'via': 'typed'})
         # (b) + (c): real file, detect_file_format + safety_check, CLI
         with open(path, 'wb') as f:
             f.write(data)
@@ -561,6 +579,11 @@ def replay(payload):
         obs = {'library': lib, 'detected': name, 'cli_exit': code}
         if payload.get('subprocess'):
             return dict(obs, violates=True)
+        if payload.get('via') == 'typed':
+            tv, _tb = S.typed_run(payload['fmt'], data, [64, 512, 600], 'memoryview')
+            outcome = tv[3] if len(tv) == 4 else tv
+            bad = (payload['unsafe'] and outcome == 'ok') or (payload['clean'] and outcome != 'ok')
+            return dict(obs, violates=bool(bad), typed_verdict=repr(tv))
         if payload.get('via') == 'inspector':
             system = S.InspectorSystem(payload['fmt'])
             obj, trace = S.replay_path(system, data, payload['path'])
